@@ -47,7 +47,7 @@ def check_alternation(run, A):
                   f'{L.m_name} called once', f'{len(L.m_calls_in_loop)} M-step call(s) per iteration, unconditional: {not any(p[0] == "m-step" for p in L.problems)}',
                   construct=f'R-LOOP::{fn.qual}::one-m-step')
         if L.m_event is not None:
-            inner = [gd for gd in L.m_event.guards if gd[0].op != 'nondet']
+            inner = LP.inner_guards(L, L.m_event)
             run.check(not inner, 'R-LOOP', f'{short}: M-step is unconditional', fn.loc(L.m_call.node), '', 'the M-step is executed under a condition',
                       construct=f'R-LOOP::{fn.qual}::m-step-guard')
         run.check(len(L.e_calls) == 1, 'R-LOOP', f'{short}: one E-step on the current model per iteration', fn.loc(L.loop.node), '',
@@ -70,8 +70,30 @@ def check_alternation(run, A):
         # model starts as None (or the given model) so that the first iteration uses the initial affiliation
         inits = [strip_views(x) for x in unwrap_gamma(L.model_init)]
         ok_init = all((x.op == 'const' and x.args[0] is None) or (x.op == 'param' and x.args[0] == 'initialization') or x.op == 'raise' for x in inits)
+        if L.peeled:
+            # the first M-step in front of the loop works on the given initialisation
+            a0 = LP.m_step_arg_of(L.first_m_call, 'affiliation')
+            ok_init = a0 is not None and strip_views(a0).op == 'param' and strip_views(a0).args[0] == 'initialization'
         run.check(ok_init, 'R-LOOP', f'{short}: model variable starts as None / the given model', fn.loc(), '',
                   'the model variable is initialised with something else than None or the initialization argument', construct=f'R-LOOP::{fn.qual}::model-init')
+        # the data term and the options of every M-step are the caller's own: the saliency reaches the M-step as given (or as the all-ones
+        # default); a rescaled / re-weighted copy changes the pooled (weight-tied) estimates although each per-slice update is scale invariant
+        sal = LP.m_step_arg(L, 'saliency')
+        if sal is not None:
+            bad = []
+            for leaf in LP.value_sources(sal):
+                x = strip_views(leaf)
+                if x.op == 'param' and x.args[0] == 'saliency':
+                    continue
+                if x.op == 'const' and x.args[0] is None:
+                    continue
+                if is_call_to(x, 'numpy.ones', 'numpy.ones_like', 'numpy.broadcast_to'):
+                    continue
+                bad.append(x)
+            run.check(not bad, 'R-DEP', f'{short}: the saliency reaches the M-step as given', fn.loc(getattr(bad[0], 'node', None)) if bad else fn.loc(), '',
+                      f'`{norm_stmt(bad[0].node)[:90] if bad and getattr(bad[0], "node", None) is not None else ""}`: the saliency handed to the M-step is a transformed copy of the '
+                      f'argument (rescaled / normalised per slice): sums that pool several slices (tied mixture weights) weight the slices differently',
+                      construct=f'R-DEP::{fn.qual}::saliency-as-given')
     run.floor('EM loops recognised', n, 7)
 
 
@@ -79,6 +101,20 @@ def affiliation_structure(L, aff, e_call):
     """aff must be  gamma(model is not None ? <derived from e_call [through the aligner]> : <loop-head value>)  (or the mu carrying it)"""
     M = L.model_mu
     t = strip_views(aff)
+    if L.peeled:
+        # every iteration of the loop has a model: the affiliation is the (aligned) E-step result unconditionally
+        x = strip_views(t.args[0]) if t.op == 'unpack' else t
+        if x is e_call:
+            return True, ''
+        n_, pos_, kw_ = call_parts(x)
+        if n_ == MMU + 'apply_inline_permutation_alignment':
+            a0 = strip_views(kw_.get('affiliation', pos_[0] if pos_ else None))
+            a0 = strip_views(a0.args[0]) if a0.op == 'unpack' else a0
+            if a0 is e_call:
+                return True, ''
+        if t.op == 'gamma' and all(mentions(y, e_call) for y in unwrap_gamma(t)):
+            return True, ''
+        return False, 'in the peeled loop the M-step does not receive the E-step result of the same iteration'
     if t.op == 'mu' and t.next is not None and t.extra[0] is L.loop:
         # value defined before this M-step in the same iteration is the back-edge value only if the M-step came first
         return False, 'the M-step uses the affiliation of the previous iteration (loop-carried value), not the one computed in this iteration'
